@@ -44,6 +44,9 @@ FLAVOURS = {
     'uchar-bsearch': {'cc': 'gcc', 'cflags': SAN + ' -DNDEBUG', 'lib_cflags': '-funsigned-char -D__NO_INLINE__', 'extra_src': ['pv_bsearch.c'], 'ldextra': '-Wl,--wrap=bsearch'},
     # the way a threaded application and its libraries are compiled: -pthread (defines _REENTRANT, which code may test)
     'asan-pthread': {'cc': 'gcc', 'cflags': SAN + ' -DNDEBUG -pthread'},
+    # the static library as the project's own CMake build produces it (default build type, its flags and definitions); harness uninstrumented
+    'cmake': {'cc': 'gcc', 'cflags': '-O1 -g -DNDEBUG', 'cmake': True},
+    'cmake-debug': {'cc': 'gcc', 'cflags': '-O1 -g', 'cmake': True, 'cmake_args': '-DCMAKE_BUILD_TYPE=Debug'},
     'asan-cp932': {'cc': 'gcc', 'cflags': SAN + ' -DNDEBUG', 'lib_cflags': '-fexec-charset=CP932'},
     'tsan':     {'cc': 'gcc', 'cflags': '-O1 -g -fsanitize=thread -DNDEBUG -pthread'},     # -pthread as every threaded program is built (defines _REENTRANT)
     # libc entry points reachable from the library are interposed at link time (C11, C15, C18)
@@ -64,6 +67,7 @@ FLAVOURS = {
     'opt-O0':   {'cc': 'gcc', 'cflags': '-O0 -g -DNDEBUG', 'ldextra': '-Wl,-z,now'},
     'opt-O1':   {'cc': 'gcc', 'cflags': '-O1 -g -DNDEBUG', 'ldextra': '-Wl,-z,now'},
     'opt-O2':   {'cc': 'gcc', 'cflags': '-O2 -g -DNDEBUG', 'ldextra': '-Wl,-z,now'},
+    'opt-cmake': {'cc': 'gcc', 'cflags': '-O2 -g -DNDEBUG', 'ldextra': '-Wl,-z,now', 'cmake': True},     # the residue scan on the library as the project's own build makes it
     'opt-O3':   {'cc': 'gcc', 'cflags': '-O3 -g -DNDEBUG', 'ldextra': '-Wl,-z,now'},
     'opt-Os':   {'cc': 'gcc', 'cflags': '-Os -g -DNDEBUG', 'ldextra': '-Wl,-z,now'},
     'clang-O2': {'cc': 'clang', 'cflags': '-O2 -g -DNDEBUG', 'ldextra': '-Wl,-z,now'},
@@ -115,7 +119,7 @@ PROPS['C03'] = {
     'require': {'concurrent.phrases_equal_specification': 30000, 'encode.calls': 400000, 'bits.seeds': 13531, 'purity.histories_agree': 1000, 'reserved_bit.decodes': 100, 'oracle.vectors_reproduced': 3000, 'lengths.encoded': 1500, 'pyvec.phrases_equal_to_python_spec': 3000, 'lengths.ko.decile8': 3, 'lengths.ko.decile6': 5, 'lengths.jp.decile2': 5},
 }
 
-_C16_FL = ['opt-O0', 'opt-O1', 'opt-O2', 'opt-O3', 'opt-Os', 'clang-O2']
+_C16_FL = ['opt-O0', 'opt-O1', 'opt-O2', 'opt-O3', 'opt-Os', 'clang-O2', 'opt-cmake']
 PROPS['C16'] = {
     'level': 'exploration',
     'runs': [{'name': fl, 'flavour': fl, 'driver': 'drv_c16', 'shards': 3} for fl in _C16_FL],
@@ -358,7 +362,8 @@ PROPS['C13'] = {
              {'name': 'O0', 'flavour': 'plain-O0', 'driver': 'drv_c13', 'env': {'PV_SCALE': '8'}, 'shards': 2, 'timeout': 1800},
              {'name': 'lto+locale', 'flavour': 'plain-lto', 'driver': 'drv_c13', 'env': {'PV_SCALE': '8', 'PV_LOCALE': 'C.utf8'}, 'shards': 2, 'timeout': 1800},
              {'name': 'Os', 'flavour': 'plain-Os', 'driver': 'drv_c13', 'env': {'PV_SCALE': '8'}, 'shards': 2, 'timeout': 1800},
-             {'name': 'O3-native', 'flavour': 'plain-O3', 'driver': 'drv_c13', 'env': {'PV_SCALE': '8'}, 'shards': 2, 'timeout': 1800}],
+             {'name': 'O3-native', 'flavour': 'plain-O3', 'driver': 'drv_c13', 'env': {'PV_SCALE': '8'}, 'shards': 2, 'timeout': 1800},
+             {'name': 'cmake', 'flavour': 'cmake', 'driver': 'drv_c13', 'env': {'PV_SCALE': '8'}, 'shards': 2, 'timeout': 1800}],
     'require': {'endurance.crypt.66000_repetitions': 1, 'endurance.decode+free.66000_repetitions': 1, 'endurance.create+free.66000_repetitions': 1, 'walks.matched_model': 3000, 'exhaustive.sequences': 11110, 'ops.create': 10000, 'ops.load': 10000, 'ops.decode': 20000, 'ops.crypt': 10000, 'ops.reinject': 3000,
                 'ops.enable': 5000, 'ops.free': 5000, 'observations': 100000, 'static_storage.checks': 100000, 'walks.with_address_reusing_allocator': 1500, 'walks.with_libc_malloc_and_injected_free': 300, 'direct.sequences': 2500, 'direct.same_address_two_seeds': 2000, 'ops.non_constructor_with_failing_allocator': 500, 'max.static_storage.ranges_of_library_objects_monitored': 2},
 }
@@ -382,7 +387,7 @@ MANIFEST_TEXT['C20'] = {'technique': 'runtime monitoring: ThreadSanitizer build 
 # Configuration stripes: "which code is compiled" is an input of every property (DESIGN.md 2.9, lessons i and v).  Every functional driver
 # that does not need the libc interposition flavours also runs a thin stripe of its workload on: a library built with unsigned plain char,
 # a clang build, -march=native, MemorySanitizer, a non-UTF-8 execution charset, and the assertion-enabled build.
-_AXES = [('fortify', 'fortify', '8'), ('shortenum', 'asan-shortenum', '6'), ('nognu', 'clang-nognu', '6'), ('fs16', 'asan-fs16', '6'), ('uchar', 'uchar', '8'), ('clang', 'clang-asan', '8'), ('native', 'asan-native', '8'), ('msan', 'msan', '8'), ('cp932', 'asan-cp932', '5'), ('asan-dbg', 'asan-dbg', '6'), ('c2x', 'asan-c2x', '5'), ('bsearch', 'asan-bsearch', '6'), ('pthread', 'asan-pthread', '6')]
+_AXES = [('fortify', 'fortify', '8'), ('shortenum', 'asan-shortenum', '6'), ('nognu', 'clang-nognu', '6'), ('fs16', 'asan-fs16', '6'), ('uchar', 'uchar', '8'), ('clang', 'clang-asan', '8'), ('native', 'asan-native', '8'), ('msan', 'msan', '8'), ('cp932', 'asan-cp932', '5'), ('asan-dbg', 'asan-dbg', '6'), ('c2x', 'asan-c2x', '5'), ('bsearch', 'asan-bsearch', '6'), ('pthread', 'asan-pthread', '6'), ('cmake', 'cmake', '8'), ('cmake-debug', 'cmake-debug', '5')]
 for _p in ('C01', 'C02', 'C03', 'C04', 'C05', 'C06', 'C07', 'C08', 'C09', 'C10', 'C12', 'C14', 'C17'):
     _runs = PROPS[_p]['runs']
     _drv = _runs[0]['driver']
@@ -436,3 +441,5 @@ _LATE = {
 }
 for _p, _t in _LATE.items():
     MANIFEST_TEXT[_p]['text'] = MANIFEST_TEXT[_p]['text'].rstrip() + _t
+for _p in ('C01', 'C02', 'C03', 'C04', 'C05', 'C06', 'C07', 'C08', 'C09', 'C10', 'C12', 'C13', 'C14', 'C16', 'C17'):
+    MANIFEST_TEXT[_p]['text'] += ' One stripe links the static library produced by the project\'s own CMake build (its flags, definitions and source list).'
